@@ -14,6 +14,7 @@ import Martian.VdrFs
 import Martian.VdrBuild
 import Proofs.VdrBuild
 import Proofs.VdrListed
+import Proofs.VdrRefuse
 
 namespace Props.C14
 open Martian.Vdr
@@ -213,6 +214,16 @@ theorem listed_needs_one_entry_per_path :
     (run c s [.early 2]).report.paths = ["/p/x".toList] ∧
     (run c s [.early 2]).disk.map (·.path) = ["/p/x".toList] := by decide
 
+/-- **refused_fork_untouched.**  A fork VDR refuses (its node lies below a
+symbolic link: `Node.vdrCheckSymlink`; no temp cleaning and no kill pass is
+performed for it): whatever else happens — consumers complete, fail, are
+reset, its bookkeeping is pruned, its cache is built — nothing of it is
+removed, nothing is reported and it never becomes final. -/
+theorem refused_fork_untouched (c : Cfg) (s0 : St) (evs : List Ev) (h : ∀ e ∈ evs, e.removes = false) :
+    (run c s0 evs).disk = s0.disk ∧ (run c s0 evs).removed = s0.removed ∧
+    (run c s0 evs).report = s0.report ∧ (run c s0 evs).final = s0.final :=
+  run_refused c s0 evs h
+
 /-! ### `BK` is what the construction establishes -/
 
 /-- **built_bookkeeping_consistent.**  The tables `attachToFileParents` /
@@ -270,6 +281,15 @@ example :
   simp at hd hd'
   rcases hd with rfl | rfl | rfl | rfl <;> rcases hd' with rfl | rfl | rfl | rfl <;>
     first | rfl | (exact absurd e (by decide))
+
+/-- a refused fork: the history of Props/C04.lean's example without its kill passes removes nothing -/
+example : (∀ e ∈ [Ev.removeEmpty, .cacheMap, .nodeDone "C"], e.removes = false) ∧
+    (run exCfg exSt [.removeEmpty, .cacheMap, .nodeDone "C"]).removed = [] := by
+  constructor
+  · intro e he
+    simp at he
+    rcases he with rfl | rfl | rfl <;> rfl
+  · decide
 
 /-- the construction yields tables (for node `A` of `exTree`: one consumer, one retain) -/
 example : wfOps [] [] (opsOf exTree) = true ∧ ((build (opsOf exTree)).lookup "A").isSome = true := by
